@@ -18,7 +18,7 @@ def run(ck):
     cov = dict(explanation="%d read obligations over all function definitions: %d discharged, %d outside the reach of the domain in %d functions (listed with reasons, not claimed), "
                "the rest matched against known findings or reported." % (st["total"], st["discharged"], st["outside_reach"], len(st["outside_reach_functions"])),
                obligations=st["total"], discharged=st["discharged"], outside_reach=st["outside_reach"], outside_reach_functions=st["outside_reach_functions"],
-               fully_discharged_functions=st["fully_discharged_functions"], fixtures=fx, frontend=info,
+               fully_discharged_functions=st["fully_discharged_functions"], fixtures=fx, frontend=info, no_slack_configuration=st.get("noslack", "thorough tier only"),
                summary="%d read obligations, %d discharged, %d outside reach" % (st["total"], st["discharged"], st["outside_reach"]))
     return ck.finish(cov, ["truthfulness premise: each caller buffer has at least the declared number of elements", "libc effect table (sa/effects.py)",
                            "NUL-terminated sources without a length parameter are not bounded by this check", "functions listed in tables/cap_reach.json are not analysed"])
